@@ -30,3 +30,10 @@ Theorem C07_selected_site_redrawn_from_prior : forall d k p vold sold s tg,
   else Ok (TDist d [VZ p] vold (d_logpdf d vold p), d_logpdf d vold p - sold, RUpdate []).
 Proof. intros. simpl. destruct (check s); reflexivity. Qed.
 Print Assumptions C07_selected_site_redrawn_from_prior.
+
+(* ---- non-vacuity: concrete non-trivial programs and traces meeting the hypotheses above (proofs/GFIWitness.v) ---- *)
+From Proofs Require Import GFIWitness.
+Example C07_hypotheses_met : wfg ex_r /\ wft ex_r ex_rt /\
+  exists t' w b, edit ex_r ex_k2 ex_rt (RRegen ex_s) [VZ 5] [tg_unknown] = Ok (t', w, b) /\ t' <> ex_rt /\ w <> 0.
+Proof. exact (conj ex_r_wfg (conj ex_r_wft ex_regenerate_succeeds)). Qed.
+Print Assumptions C07_hypotheses_met.
